@@ -139,6 +139,13 @@ ValidateOpOK ==
      MapValidateOp(ValDesc, st[r], ops[i].op) = ExpValidate(ops, know[r], i)
 \* C17
 ValidateMergeOK == \A a, b \in States : MapValidateMerge(ValDesc, a, b) = "Ok"
+\* C17, second half (misuse configs): an error exactly when some dot is the current witness of one key in one
+\* state and of a different key in the other, or the nested values of a concurrently edited key conflict
+ExpVM(a, b) ==
+  IF \E k1 \in DOMAIN a.entries, k2 \in DOMAIN b.entries, x \in Actors :
+        k1 # k2 /\ a.entries[k1].clock[x] > 0 /\ b.entries[k2].clock[x] = a.entries[k1].clock[x]
+  THEN "DoubleSpentDot"
+  ELSE MapValidateMerge(ValDesc, a, b)
 \* C07
 FreshDot ==
   \A r \in Reps : \A i \in 1..Len(ops) :
